@@ -355,6 +355,28 @@ NOT_APPLICABLE = {
 ALL = ["C%02d" % i for i in range(1, 21)]
 
 
+# sentences added in the ninth round of seeding (one per new rule / obligation; see DESIGN.md section 3)
+ROUND9 = {
+    "C01": "A return of _input_dependencies_satisfied without a value is classified by how the callers read it ('is False' reads None as satisfied).",
+    "C05": "A table that instantiate_dowhile_next_iteration keeps on the graph is keyed by every document field its own labels name the loop with (stage and name).",
+    "C06": "A constructor of dsl.py that records an error into a list parameter keeps that very list on the object, or a caller reads its list afterwards.",
+    "C07": "The writers of conf/flowir_instance.yaml and conf/manifest.yaml never remove the file they are about to replace (C14 write-discipline obligations re-used).",
+    "C08": "An object stored into the component lookup index is also put into the description by the same function.",
+    "C09": "On every path of ParseProducerReference the stage comes from the reference itself or the caller's index is consulted.",
+    "C11": "No iteration over the keys of a dictionary in validate_object_schema ends without queuing the key under a matching rule or recording FlowIRKeyUnknown.",
+    "C12": "The import of the restart hook module is enclosed by a handler for SystemExit (repaired defect).",
+    "C14": "No state-file writer drops the count returned by a raw os.write; every rename's source has a recognised producer; a remove through a loop variable over state-file paths is seen.",
+    "C15": "Resolving one component writes nothing into the description the next one is resolved from (C08 effect analysis re-used): components are resolved in set order.",
+    "C16": "In every mode a reference's entry is recorded only past a successful existence test of its location.",
+    "C17": "No method of FlowIRConcrete returns an object of the stored environments itself (reaching-definitions alias analysis).",
+    "C18": "The path looked up among the archive's own links depends on the extraction root, or absolute link targets are refused (repaired defect).",
+    "C19": "The encoding the reader falls back to equals the encoding of every text-mode writer of dosini.py (unspecified = platform default UTF-8).",
+    "C20": "A stage selection that keeps verdicts in an attribute of the controller is reset by every method that grows the graph.",
+}
+for _k, _v in ROUND9.items():
+    CLAIMED[_k]["text"] = CLAIMED[_k]["text"] + " " + _v
+
+
 def main():
     checks = []
     for pid in ALL:
